@@ -140,6 +140,9 @@ def gen_case(rng, tier):
         big = rng.choice([21330, 21333, 21334, 30000, 43000])
         filler = ('a' * (big - 3) + 'é—日') if text else (b'a' * big).hex()
         ops = [['write', filler], ['write', _chunk(rng, text, 5)]] + ops[:12]
+        # ... and requests beyond the small-integer cache / a typical line buffer
+        ops = [(['read', rng.choice([256, 257, 300, 1000, 4096, 8193])] if op[0] == 'read' and isinstance(op[1], int)
+                and op[1] > 0 and rng.random() < 0.6 else op) for op in ops]
         nops = len(ops)
     replicas = [{'max_size': 1 << 40, 'bufsize': 8192, 'roll_at': None},
                 {'max_size': 1, 'bufsize': rng.choice([1, 8, 64, 8192]), 'roll_at': None},
@@ -154,6 +157,9 @@ def gen_case(rng, tier):
 def _gen_mfr(rng):
     text = rng.random() < 0.5
     n = rng.randint(0, 30)
+    big = rng.random() < 0.05
+    if big:
+        n = rng.choice([300, 600, 1500, 3000])      # members much longer than the requested read sizes
     content = _chunk(rng, text, n)
     if not text:
         content_len = len(content) // 2
@@ -168,7 +174,7 @@ def _gen_mfr(rng):
     for _ in range(rng.randint(1, 10)):
         r = rng.random()
         if r < 0.6:
-            ops.append(['read', rng.choice([1, 2, 3, 5, 8, 13, 40])])
+            ops.append(['read', rng.choice([1, 2, 3, 5, 8, 13, 40] if not big else [100, 255, 256, 257, 300, 1000, 4096])])
         elif r < 0.8:
             ops.append(['read', None])
         else:
